@@ -610,6 +610,17 @@ func runC03(c *Check) {
 	y := *x
 	y.calls = xCallsStmt
 	y.runSpace(&xspace{segs: []xseg{asiSpace(), stmtSpace(c.Tier)}})
+	// imported constants as leaves (late constant folding in the printer after cross-module inlining)
+	z := *x
+	z.cfgs = c03XmodCfgs
+	z.transform = c03XmodBundle
+	z.prelude = c03XmodPrelude()
+	z.keyPrefix = "xmod:"
+	xctxs := pickCtx("return", "if")
+	if c.Tier != "quick" {
+		xctxs = pickCtx("return", "stmt", "if", "cond-test")
+	}
+	z.runSpace(&xspace{segs: []xseg{segPairsLeaf("xmod:ctx*reduced*slot*reduced*slot*imported-constant", xctxs, red, red, c03XmodNames())}})
 	c03FoldTable(c, pool)
 	c03DefinePureDrop(c, pool)
 }
